@@ -14,6 +14,7 @@ import json
 import os
 import re
 import shutil
+import signal
 import tempfile
 
 from harness.fw import REPO, VERIF, Check, Driver, ToolFailure
@@ -138,13 +139,29 @@ def real_clean():
     return clean_file_name
 
 
-def canon_clean(fn, filename, unique, replace):
+class Hang(Exception):
+    pass
+
+
+def _alarm(signum, frame):
+    raise Hang()
+
+
+def canon_clean(fn, filename, unique, replace, limit=10.0):
+    """the real call; a uniqueness loop that never finds a free name is cut off after `limit` seconds"""
+    old = signal.signal(signal.SIGALRM, _alarm)
+    signal.setitimer(signal.ITIMER_REAL, limit)
     try:
         r = fn(filename, unique=unique, replace=replace)
     except ValueError:
         return "valueerror", None
+    except Hang:
+        return "hang", None
     except Exception as e:  # noqa
         return "other:" + type(e).__name__, None
+    finally:
+        signal.setitimer(signal.ITIMER_REAL, 0)
+        signal.signal(signal.SIGALRM, old)
     if not isinstance(r, str):
         return "other:" + type(r).__name__, None
     return ("ok " + enc(r)) if not has_surrogate(r) else "ok <surrogate>", r
@@ -237,6 +254,8 @@ def run_case(fn, scratch, case):
         files = listing(dirpart) if case["unique"] else []
         reply, r = canon_clean(fn, filename, case["unique"], replace)
         bad = oracle(filename, case["unique"], r) if r is not None else []
+        if reply == "hang":
+            bad = ["does-not-return (uniqueness loop still running after 10 s with %d files in the directory)" % len(files)]
         return reply, r, files, bad
     finally:
         scratch.done(w)
@@ -309,7 +328,7 @@ def run(ck: Check):
             if bad:
                 report(ck, c, bad, reply)
         # ---- T: posixpath
-        n_posix = 4000 if ck.quick else 60000
+        n_posix = 3000 if ck.quick else 60000
         reqs, real = [], []
         for _ in range(n_posix):
             p = rand_path(rng)
@@ -330,7 +349,7 @@ def run(ck: Check):
             pats = None
         if pats and drv:
             reqs, real = [], []
-            for _ in range(6000 if ck.quick else 100000):
+            for _ in range(4000 if ck.quick else 100000):
                 s = rand_basename(rng)[: rng.choice((3, 8, 40, 300))]
                 rep = rng.choice(["_", "_", "-", "__", "x", "é", rand_run(rng, rng.randrange(0, 3))])
                 reqs.append(f"validrep {enc(s[:3])}")
@@ -342,9 +361,9 @@ def run(ck: Check):
                 reqs.append(f"digits {enc('x' * n)}"); real.append(enc("{}".format(n)))
             ck.compare("regex", reqs, real, drv.ask(reqs))
         # ---- T + S: clean_file_name
-        n_plain = 12000 if ck.quick else 300000
-        n_uniq = 1500 if ck.quick else 30000
-        n_surr = 1500 if ck.quick else 20000
+        n_plain = 8000 if ck.quick else 300000
+        n_uniq = 1000 if ck.quick else 30000
+        n_surr = 1000 if ck.quick else 20000
         reqs, real, cases = [], [], []
         dist = {"len_0_12": 0, "len_13_229": 0, "len_230_plus": 0, "with_dot": 0, "changed": 0, "unique": 0,
                 "collisions_avoided": 0, "valueerror": 0, "surrogate_only_oracle": 0, "custom_replace": 0}
